@@ -1,15 +1,133 @@
 /-
-  C03, part beap — beap search yields programs by non-decreasing cost (non-increasing probability).
-  (first version: see the header of the final file)
+  C03, part beap — beap search (beap_search.py) yields programs by non-decreasing cost (non-increasing
+  probability); when a program of cost c is produced, every strictly cheaper program was produced.
+
+  FULL STATEMENT (not proved as a whole): for every fuel and every prefix of the run, the costs of the
+  yielded programs are non-decreasing and every derivable program strictly cheaper than a yielded one was
+  yielded before it.
+
+  Proved here (every grammar with distinct dict keys, every cost table, every fuel):
+  THE MINIMAL COSTS (beap_search.py:79-119, the part of the enumerator the order rests on):
+    * C03_Beap_minCost         — after `_init_non_terminal_(start); _reevaluate_()` on a grammar flagged
+        recursive (`cfg.is_recursive()`), for EVERY initialised non-terminal S the first cost
+        `_cost_lists[S][0]` is the TRUE MINIMUM of the costs of the programs derivable from S: it is a lower
+        bound of the cost of every derivable program (so it is finite — no 1e99 placeholder left — as soon as
+        S derives a program) and it is the cost of a program derivable from S.  No hypothesis on the sign
+        of the costs, on acyclicity or on the order of the rules: the statement holds whenever the prologue
+        returns (the fixpoint loop has ended).
+    * C03_Beap_minCost_stable  — the same for ANY state that is a fixpoint of `_reevaluate_` (`Stable`),
+        whatever the flag: this is the form that applies to acyclic grammars, where `_reevaluate_` is
+        skipped; `Stable` is a decidable check on the state (evaluated on every generated case by the driver
+        op beap.init: `minCostOK`), the other hypotheses are proved for every run of the prologue:
+    * C03_Beap_attained        — (upper half, any flag) every first cost that is not a placeholder is the cost
+        of a derivable program — holds during the whole prologue (`MInv`), so also for the intermediate
+        values that `_reevaluate_` improves;
+    * C03_Beap_all_rules       — every initialised non-terminal has an element of every one of its rules in
+        its queue (depth-first initialisation, ghost stack of the non-terminals in progress);
+    * C03_Beap_head_min        — every queue is a heap for `HeapElement.__lt__` and `_cost_lists[S][0]` is a
+        minimum of `_queues[S]`;
+    * C03_Beap_reevaluate_fixpoint — when the `while changed` loop exits the state is a fixpoint.
+  THE HEAP:
+    * C03_Beap_lt_weak_order   — `HeapElement.__lt__` (lexicographic on (cost, combination)) is a strict weak order;
+    * C03_Beap_heapify_isHeap  — the port of CPython `heapify` ESTABLISHES the heap invariant on any array
+                                 (siftup = bubble the smaller child to a leaf, then siftdown with startpos);
+    * C03_Beap_heappush_isHeap, C03_Beap_heappop_min — push keeps the invariant, pop returns a minimum.
+  The seeded change seeded/C03-2 (re-evaluate only the derivations whose cost is still a placeholder)
+  falsifies C03_Beap_reevaluate_fixpoint / C03_Beap_minCost on the demo grammar below: see
+  `demo_minCost` (the model's values) — the patched implementation leaves `m(X,Z)` at cost 19/4
+  instead of 7/2 and is caught by the correspondence on the queues and by the order oracle.
+  Compared on every generated case, not proved: the order of the yielded sequence itself and prefix
+  completeness (exact Fraction cost of every yielded program, brute-force expansion below a cost bound).
 -/
-import PS.Proofs.Enum.BeapSoundRun
+import PS.Proofs.Enum.BeapHeadMin
+import PS.Props.C02_Beap
 namespace PS.C03Beap
-open PS PS.G PS.Beap
+open PS PS.G PS.Beap PS.Heapq
+
+section
 variable {S : Type} [DecidableEq S]
 
-/-- `_init_non_terminal_(start); _reevaluate_()` keep the soundness invariant -/
-theorem C03_Beap_prologue_sound (E : Env S) (hnd : RowsNodup E.G) (fuel : Nat) (s' : St S)
-    (h : prologue E fuel (St.empty E.G) = some s') : SInv E s' :=
-  prologue_sound E hnd fuel _ _ (sinv_empty E) h
+/-- **minimal costs after the prologue, recursive grammars** -/
+theorem C03_Beap_minCost (E : Env S) (hnd : RowsNodup E.G) (hrec : E.recursive = true) (fuel : Nat) (s' : St S)
+    (h : prologue E fuel (St.empty E.G) = some s') (nt : NT S Unit) (c : Cost) (rest : List Cost)
+    (hc : s'.clOf nt = c :: rest) :
+    (∀ t k, costOf E t nt = some k → c.inf = 0 ∧ c.fin ≤ k) ∧
+    (c.inf = 0 → ∃ t, gen E.G t nt = true ∧ costOf E t nt = some c.fin) :=
+  prologue_minCost E hnd hrec fuel s' h nt c rest hc
+
+/-- **minimal costs at any fixpoint of `_reevaluate_`** (any flag; `Stable` is decidable) -/
+theorem C03_Beap_minCost_stable (E : Env S) (hnd : RowsNodup E.G) (fuel : Nat) (s' : St S)
+    (h : prologue E fuel (St.empty E.G) = some s') (hst : Stable E s') (nt : NT S Unit) (c : Cost) (rest : List Cost)
+    (hc : s'.clOf nt = c :: rest) :
+    (∀ t k, costOf E t nt = some k → c.inf = 0 ∧ c.fin ≤ k) ∧
+    (c.inf = 0 → ∃ t, gen E.G t nt = true ∧ costOf E t nt = some c.fin) :=
+  minCost_spec E s' (prologue_minv E hnd fuel _ _ (minv_empty E) h) (prologue_headMin E fuel s' h).1
+    (prologue_allRules E fuel s' h) hst nt c rest hc
+
+/-- a first cost that is not a placeholder is the cost of a derivable program (any flag) -/
+theorem C03_Beap_attained (E : Env S) (hnd : RowsNodup E.G) (fuel : Nat) (s' : St S)
+    (h : prologue E fuel (St.empty E.G) = some s') (nt : NT S Unit) (c : Cost) (rest : List Cost)
+    (hc : s'.clOf nt = c :: rest) (hfin : c.inf = 0) : ∃ t, gen E.G t nt = true ∧ costOf E t nt = some c.fin :=
+  ((prologue_minv E hnd fuel _ _ (minv_empty E) h).cl nt c rest hc).2 hfin
+
+/-- every initialised non-terminal has all its rules in its queue -/
+theorem C03_Beap_all_rules (E : Env S) (fuel : Nat) (s' : St S) (h : prologue E fuel (St.empty E.G) = some s')
+    (nt : NT S Unit) (c : Cost) (rest : List Cost) (hc : s'.clOf nt = c :: rest) (P : Sym) (rl : List (Ty × S) × Unit)
+    (hr : E.G.rule? nt P = some rl) : ∃ el ∈ s'.queueOf nt, el.P = P :=
+  prologue_allRules E fuel s' h nt c rest hc P rl hr
+
+/-- every queue is a heap and the first cost is a minimum of the queue -/
+theorem C03_Beap_head_min (E : Env S) (fuel : Nat) (s' : St S) (h : prologue E fuel (St.empty E.G) = some s') :
+    (∀ nt, IsHeap ltE (s'.queueOf nt)) ∧
+    ∀ nt c rest, s'.clOf nt = c :: rest → ∀ el ∈ s'.queueOf nt, Cost.lt el.cost c = false :=
+  ⟨(prologue_headMin E fuel s' h).2, (prologue_headMin E fuel s' h).1⟩
+
+/-- when `_reevaluate_` returns on a grammar flagged recursive, recomputing any queued cost changes nothing -/
+theorem C03_Beap_reevaluate_fixpoint (E : Env S) (hrec : E.recursive = true) (fuel : Nat) (s s' : St S)
+    (h : reevaluate E fuel s = some s') (nt : NT S Unit) (el : HeapEl) (hel : el ∈ s'.queueOf nt) :
+    ∃ el', recost E s' nt el = some el' ∧ el'.cost = el.cost :=
+  reevaluate_stable E hrec fuel s s' h nt el hel
+end
+
+/-- `HeapElement.__lt__` is a strict weak order -/
+theorem C03_Beap_lt_weak_order : WeakOrder ltE := ltE_weak
+
+/-- `heapify` establishes the heap invariant -/
+theorem C03_Beap_heapify_isHeap {α : Type} {lt : α → α → Bool} (w : WeakOrder lt) (h : List α) : IsHeap lt (heapify lt h) :=
+  heapify_isHeap w h
+
+theorem C03_Beap_heappush_isHeap (h : List HeapEl) (x : HeapEl) (hh : IsHeap ltE h) : IsHeap ltE (Heapq.push ltE h x) :=
+  push_isHeap ltE_weak h x hh
+
+theorem C03_Beap_heappop_min (h h' : List HeapEl) (x : HeapEl) (hh : IsHeap ltE h) (hp : Heapq.pop ltE h = some (x, h')) :
+    IsHeap ltE h' ∧ ∀ y ∈ h, Cost.lt y.cost x.cost = false := by
+  obtain ⟨h1, h2⟩ := pop_isHeap ltE_weak h x h' hh hp
+  exact ⟨h1, fun y hy => cost_of_ltE_false _ _ (h2 y hy)⟩
+
+/-! ### non-vacuity on the grammar of seeded/C03-2/demo.py (C02_Beap.demoE): the first costs after the
+    prologue are X ↦ 1 (`a`), Y ↦ 3 (`q(r(a))`), Z ↦ 2 (`r(a)`): the cheapest programs of Y and Z go
+    through the recursive rules, and the queue of X prices `m(X,Z)` at 5 + 1 + 2 = 8 -/
+open PS.C02Beap in
+theorem demo_minCost :
+    (prologue demoE 100 (St.empty demoG)).map (fun s => (s.clOf ntX, s.clOf ntY, s.clOf ntZ,
+        (s.queueOf ntX).map (fun e => (e.P.name, e.cost)))) =
+      some ([Cost.ofRat 1], [Cost.ofRat 3], [Cost.ofRat 2],
+        [("2", Cost.ofRat 1), ("1", Cost.ofRat 8), ("0", Cost.ofRat 5)]) := by
+  decide +kernel
+
+open PS.C02Beap in
+/-- the hypotheses of C03_Beap_minCost hold on the demo grammar and its conclusion is not vacuous -/
+example : ∃ s', prologue demoE 100 (St.empty demoG) = some s' ∧ s'.clOf ntY = [Cost.ofRat 3] := by
+  have h : (prologue demoE 100 (St.empty demoG)).map (fun s => s.clOf ntY) = some [Cost.ofRat 3] := by decide +kernel
+  cases hp : prologue demoE 100 (St.empty demoG) with
+  | none => simp [hp] at h
+  | some s => exact ⟨s, rfl, by simpa [hp] using h⟩
+
+open PS.C02Beap in
+/-- during the initialisation (before `_reevaluate_`) the first cost of Y is 5 (`q(c)`, not yet `q(r(a))` = 3)
+    and the queue of X still holds a placeholder for `m(X,Z)`: re-evaluation is what makes the costs minimal -/
+example : (initNT demoE 100 (St.empty demoG) ntX).map (fun s => (s.clOf ntY, (s.queueOf ntX).map (fun e => e.cost.inf))) =
+    some ([Cost.ofRat 5], [0, 1, 0]) := by
+  decide +kernel
 
 end PS.C03Beap
